@@ -41,6 +41,37 @@ if req['mode'] == 'import':
 else:
     import bashlex
     sys.addaudithook(hook)
+    # environment variables and file-system queries raise no audit event: observe them through the names
+    # Python code reaches them by (os.environ / os.getenv / os.stat ... as module attributes)
+    class _Env(type(os.environ)):
+        pass
+    def _rec(kind):
+        def note(*a):
+            if state['on']: events.append([state['idx'], kind, repr(a)[:200]])
+        return note
+    _envnote = _rec('environ.read')
+    _orig_env = os.environ
+    class RecEnv(dict):
+        def __init__(self, base): dict.__init__(self, base)
+        def __getitem__(self, k): _envnote(k); return dict.__getitem__(self, k)
+        def get(self, k, d=None): _envnote(k); return dict.get(self, k, d)
+        def __contains__(self, k): _envnote(k); return dict.__contains__(self, k)
+        def __setitem__(self, k, v): _rec('environ.write')(k); dict.__setitem__(self, k, v)
+        def __delitem__(self, k): _rec('environ.write')(k); dict.__delitem__(self, k)
+        def copy(self): _envnote('*copy'); return dict(self)
+        def items(self): _envnote('*items'); return dict.items(self)
+        def keys(self): _envnote('*keys'); return dict.keys(self)
+    os.environ = RecEnv(_orig_env)
+    _getenv = os.getenv
+    os.getenv = lambda k, d=None: (_envnote(k), os.environ.get(k, d))[1]
+    for name in ('stat', 'lstat', 'access', 'readlink', 'getcwd', 'utime', 'chdir', 'umask', 'getlogin'):
+        if hasattr(os, name):
+            def mk(name, f):
+                note = _rec('fs.' + name)
+                def w(*a, **k):
+                    note(*a); return f(*a, **k)
+                return w
+            setattr(os, name, mk(name, getattr(os, name)))
     for i, (entry, opts, s) in enumerate(req['calls']):
         state['idx'] = i; state['on'] = True
         try:
